@@ -45,6 +45,7 @@ long g_fired[rtio::C_NCALLS][rtio::A_NACTS];
 long g_calls[rtio::C_NCALLS];
 long g_epoll_waits = 0, g_epoll_blocks = 0, g_epoll_ctls = 0;
 bool g_atexit = false;
+bool (*g_filter)(void*) = nullptr;
 
 const char* kCall[] = {"readv", "writev", "read", "write"};
 const char* kAct[] = {"eagain", "eintr", "err", "short"};
@@ -103,11 +104,12 @@ bool apply_simple_fault(const Fault* f, rtio::Call c, ssize_t* out) {
 namespace rtio {
 
 void reset() {
-  g.faults.clear(); g.ncalls.clear(); g.traced.clear(); g.dead.clear(); g.regs.clear();
+  g.faults.clear(); g.ncalls.clear(); g.traced.clear(); g.dead.clear(); g.regs.clear(); g_filter = nullptr;
   if (!g_atexit) { g_atexit = true; atexit(print_stats); }
 }
 void fault(Call c, int fd, int kth, Act a, int arg) { g.faults.push_back(Fault{c, fd, kth, a, arg}); }
 void trace_fd(int fd) { g.traced[fd] = true; }
+void set_event_filter(bool (*f)(void*)) { g_filter = f; }
 void mark_dead(const void* p, size_t n) { g.dead.emplace_back(static_cast<const char*>(p), n); }
 int registrations_into(const void* p, size_t n) {
   const char* b = static_cast<const char*>(p); int k = 0;
@@ -133,8 +135,12 @@ int epoll_wait(int epfd, struct epoll_event* ev, int maxev, int timeout) {
       int k = 0;
       for (int i = 0; i < n; ++i) {
         void* p = ev[i].data.ptr;
+        bool drop = false;
         if (p != nullptr && in_dead(p)) {
           rt::fail("epoll_wait delivered an event for an operation that has already completed (stale epoll registration)");
+          drop = true;
+        } else if (p != nullptr && g_filter && g_filter(p)) drop = true;
+        if (drop) {
           for (auto it = g.regs.begin(); it != g.regs.end();) {
             if (it->first.first == epfd && it->second == p) {
               struct epoll_event e = {}; REAL(epoll_ctl)(epfd, EPOLL_CTL_DEL, it->first.second, &e); it = g.regs.erase(it);
